@@ -317,7 +317,8 @@ func genC16(r *Rng, tier string) []*Case {
 	var alphabet []GOp
 	for _, k := range []string{"m", "v"} {
 		alphabet = append(alphabet, GOp{Op: k + "create", ID: 0}, GOp{Op: k + "get", ID: 0}, GOp{Op: k + "flush", ID: 0}, GOp{Op: k + "delete", ID: 0},
-			up(k, 0, 10, GEntry{I: "0", J: "1", V: 1}, GEntry{I: "1", J: "0", V: 2}), up(k, 0, 5, GEntry{I: "0", J: "1", V: 0}), up(k, 0, 7, GEntry{I: "2", J: "2", V: 3}))
+			up(k, 0, 10, GEntry{I: "0", J: "1", V: 1}, GEntry{I: "1", J: "0", V: 2}), up(k, 0, 5, GEntry{I: "0", J: "1", V: 0}), up(k, 0, 7, GEntry{I: "2", J: "2", V: 3}),
+			up(k, 0, 9)) // a batch without entries still carries its timestamp
 	}
 	maxLen := 3
 	if tier != "quick" {
